@@ -39,11 +39,13 @@ TClose      == IsEvent("Close")     /\ Close
 TNote       == IsEvent("Note")      /\ UNCHANGED cvars
 \* liveness probe of the client's inbound path after a burst nobody consumed: it must have succeeded
 TProbe      == IsEvent("Probe")     /\ Line.ok /\ UNCHANGED cvars
+\* a reader blocked with nothing queued is woken by its deadline (exactly then) and by Close
+TWoken      == IsEvent("Woken")     /\ Line.ok /\ queue = <<>> /\ UNCHANGED cvars
 \* the execution has settled (all timers and transactions done): every successful write is on the wire
 TEnd        == IsEvent("End")       /\ Settled /\ UNCHANGED cvars
 
 TNext == TReset \/ TWriteCall \/ TWriteRet \/ TCPReq \/ TCPResp \/ TCBReq \/ TCBResp \/ TSendInd \/ TChanData
-         \/ TInjectInd \/ TInjectChan \/ TRead \/ TReadErr \/ TClose \/ TNote \/ TEnd \/ TProbe
+         \/ TInjectInd \/ TInjectChan \/ TRead \/ TReadErr \/ TClose \/ TNote \/ TEnd \/ TProbe \/ TWoken
 TSpec == TInit /\ [][TNext]_tvars
 
 \* how far the replay got (high-water mark kept in a TLC register; run with -workers 1)
